@@ -17,6 +17,7 @@ import (
 	"time"
 
 	"github.com/vbauerster/mpb/v8"
+	"github.com/vbauerster/mpb/v8/decor"
 )
 
 func init() { families["conc"] = runConcFamily }
@@ -186,7 +187,16 @@ func execConcCase(c *runCtx, cc *concCase, cases lineW) error {
 	if f, ok := cases.(interface{ Flush() error }); ok {
 		_ = f.Flush()
 	}
-	b := p.AddBar(cc.total)
+	// every other case: moving-average decorators on the bar, so that the Ewma mutators have somebody to update while render
+	// cycles read the same decorators (the counters' sequential rules are the same with and without them)
+	var b *mpb.Bar
+	if cc.k%2 == 1 {
+		b = p.AddBar(cc.total,
+			mpb.PrependDecorators(decor.EwmaSpeed(decor.SizeB1024(0), "% .1f", 30), decor.Percentage()),
+			mpb.AppendDecorators(decor.EwmaETA(decor.ET_STYLE_GO, 30), decor.OnComplete(decor.EwmaETA(decor.ET_STYLE_MMSS, 10), "done")))
+	} else {
+		b = p.AddBar(cc.total)
+	}
 
 	var seq int64
 	var mu sync.Mutex
